@@ -162,6 +162,7 @@ def observe(kind, h, universe, probe_keys, flip=0, sizes=None):
     if kind == "M":
         layers = q(h.get_existing_layers)
         o["layers"] = tags(layers)
+        o["edge_md"] = {cedge(kind, e): cmeta(val(gm(e))) for e in elist}
         return o
     o["num_nodes"] = val(q(h.num_nodes))
     o["num_edges"] = val(q(h.num_edges))
